@@ -19,10 +19,14 @@ type ScriptOpts struct {
 	Meta      bool   // headers / trailers / request metadata
 	Shapes    []string
 	BudgetLeft *int // total payload bytes budget shared across RPCs (nil = none)
+	BigProb    int  // percentage of multi-megabyte messages
 }
 
 func (o *ScriptOpts) size(rng *rand.Rand) int {
 	n := genSize(rng, o.MaxSize)
+	if o.BigProb > 0 && rng.Intn(100) < o.BigProb {
+		n = hugeSizes[rng.Intn(len(hugeSizes))]
+	}
 	if o.BudgetLeft != nil {
 		if n > *o.BudgetLeft {
 			n = rng.Intn(64)
@@ -31,6 +35,8 @@ func (o *ScriptOpts) size(rng *rand.Rand) int {
 	}
 	return n
 }
+
+var hugeSizes = []int{1<<20 + 1, 3<<20 + 5, 4 << 20, 8<<20 - 1, 8 << 20, 8<<20 + 1}
 
 func pace(rng *rand.Rand, pacing string) []Op {
 	switch pacing {
